@@ -22,9 +22,9 @@
 //!
 //! Correspondence: request line for the Lean driver
 //!   `hasher flm <kind> <mask> <data> <pre-ops…> F <cur_ix> <max_length> <max_backward> <max_distance>
-//!        <cache,16 comma separated i32> <in_len> <in_score> <dict|->`
+//!        <cache,16 comma separated i32> <in_len> <in_score> <dict|-> <num_last_distances> <literal_byte_score>`
 //! (tables start zeroed; pre-ops as in the `hasher` engine plus `P:<table>:<index>:<value>` pokes;
-//!  dict = `-` or `lookups:matches:` + up to 2 looked-up items `item.sizebits.wordhex` joined by `+`)
+//!  dict = `lookups:matches:` + `-` (no dictionary) or up to 2 looked-up items `item.sizebits.wordhex` joined by `+`)
 //! answer: `<0|1> <len> <len_x_code> <distance> <score> <num_digest> <buckets_digest>` | `panic`.
 //!
 //! non-trivial case: `FindLongestMatch` returned true.
@@ -164,11 +164,17 @@ pub fn flm_request(kind: &Kind, c: &FlmCase) -> Option<String> {
     let spec = kind.spec.as_ref()?;
     let shallow = matches!(kind.family, Family::Basic { .. });
     let use_dict = c.dict && match kind.variant { "H3" | "H54" => false, _ => true };
-    let dict = if use_dict { dict_token(&c.data, c.cur_ix & c.mask, shallow, c.lookups, c.matches) } else { "-".to_string() };
+    // `<lookups>:<matches>:<slots>`; slots `-` = no dictionary passed (or a kind that ignores it)
+    let dict = if use_dict { dict_token(&c.data, c.cur_ix & c.mask, shallow, c.lookups, c.matches) } else { format!("{}:{}:-", c.lookups, c.matches) };
     let cache = c.cache.iter().map(|x| x.to_string()).collect::<Vec<_>>().join(",");
+    let (num_last, lbs) = {
+        let mut h = build(&kind.build);
+        let nl = h.GetHasherCommon().params.num_last_distances_to_check;
+        (nl, h.Opts().literal_byte_score)
+    };
     let r = format!(
-        "hasher flm {} {} {} {} F {} {} {} {} {} {} {} {}",
-        spec, mask_token(c.mask), hex(&c.data), c.pre.join(" "), c.cur_ix, c.max_length, c.max_backward, c.max_distance, cache, c.in_len, c.in_score, dict
+        "hasher flm {} {} {}{} F {} {} {} {} {} {} {} {} {} {}",
+        spec, mask_token(c.mask), hex(&c.data), c.pre.iter().map(|t| format!(" {}", t)).collect::<String>(), c.cur_ix, c.max_length, c.max_backward, c.max_distance, cache, c.in_len, c.in_score, dict, num_last, lbs
     );
     if r.len() < 65000 { Some(r) } else { None }
 }
@@ -530,7 +536,9 @@ pub fn parse_request(line: &str, kinds: &[Kind]) -> Option<(Kind, FlmCase)> {
     if a.len() < 8 { return None; }
     let mut cache = [0i32; 16];
     for (i, x) in a[4].split(',').enumerate().take(16) { cache[i] = x.parse().ok()?; }
-    let dict = a[7] != "-";
-    let (lookups, matches) = if dict { let f: Vec<&str> = a[7].split(':').collect(); (f[0].parse().ok()?, f[1].parse().ok()?) } else { (0, 0) };
+    let f: Vec<&str> = a[7].split(':').collect();
+    if f.len() < 3 { return None; }
+    let dict = f[2] != "-";
+    let (lookups, matches) = (f[0].parse().ok()?, f[1].parse().ok()?);
     Some((kind, FlmCase { mask, data, pre, cur_ix: a[0].parse().ok()?, max_length: a[1].parse().ok()?, max_backward: a[2].parse().ok()?, max_distance: a[3].parse().ok()?, cache, in_len: a[5].parse().ok()?, in_score: a[6].parse().ok()?, dict, lookups, matches, natural: false, cache_class: "corpus", table_class: "corpus" }))
 }
